@@ -99,4 +99,130 @@ example (t : Nat) (h : Runs Ex.noTypes true (Base.new 32) 0 ([stepImm 0xFFF] ++ 
   readback_after_history Ex.noTypes true (Base.new 32) Ex.wf32 [stepImm 0xFFF] (stepImm 0x001) 0 t (by decide)
     (by intro st hst; simp at hst; rcases hst with rfl | rfl <;> exact stepImm_ok _ (by decide)) h
 
+
+/-! ## Order-independence, dead writes, idempotence (any number of writes) -/
+
+/-- the two writes touch no common position -/
+def Apart (a b : WriteOp) : Prop :=
+  ∀ p, (written a.v a.off a.rs 0 p).isSome → written b.v b.off b.rs 0 p = none
+
+theorem Apart.symm {a b : WriteOp} (h : Apart a b) : Apart b a := by
+  intro p hb
+  cases ha : written a.v a.off a.rs 0 p with
+  | none => rfl
+  | some x => have := h p (by simp [ha]); simp [this] at hb
+
+theorem lastWriteIn_some_mem : ∀ (ops : List WriteOp) (p : Nat) (b : Bool), lastWriteIn ops p = some b →
+    ∃ op ∈ ops, written op.v op.off op.rs 0 p = some b := by
+  intro ops
+  induction ops with
+  | nil => intro p b h; simp [lastWriteIn] at h
+  | cons x rest ih =>
+    intro p b h
+    simp only [lastWriteIn] at h
+    cases hl : lastWriteIn rest p with
+    | some c =>
+      rw [hl] at h
+      obtain ⟨op, hm, hw⟩ := ih p c hl
+      simp only [Option.some.injEq] at h
+      exact ⟨op, List.mem_cons_of_mem _ hm, h ▸ hw⟩
+    | none =>
+      rw [hl] at h
+      exact ⟨x, List.mem_cons_self, h⟩
+
+theorem lastWriteIn_of_mem : ∀ (ops : List WriteOp) (p : Nat) (b : Bool), ops.Pairwise Apart →
+    ∀ op ∈ ops, written op.v op.off op.rs 0 p = some b → lastWriteIn ops p = some b := by
+  intro ops
+  induction ops with
+  | nil => intro p b _ op hm; simp at hm
+  | cons x rest ih =>
+    intro p b hpw op hm hw
+    rw [List.pairwise_cons] at hpw
+    simp only [lastWriteIn]
+    rcases List.mem_cons.mp hm with rfl | hm'
+    · cases hl : lastWriteIn rest p with
+      | none => exact hw
+      | some c =>
+        obtain ⟨y, hy, hyw⟩ := lastWriteIn_some_mem rest p c hl
+        have := hpw.1 y hy p (by simp [hw])
+        simp [this] at hyw
+    · rw [ih p b hpw.2 op hm' hw]
+
+/-- **order-independence, any number of writes.** Two histories that consist of the same writes in a different order
+    (`List.Perm`), the writes being pairwise on disjoint position sets, end in the same register -/
+theorem disjoint_perm (W init : Nat) (ops ops' : List WriteOp) (hinit : init < 2 ^ W) (hp : ops.Perm ops')
+    (hdis : ops.Pairwise Apart) : applyWrites W init ops = applyWrites W init ops' := by
+  have hdis' : ops'.Pairwise Apart := (hp.pairwise_iff (fun h => Apart.symm h)).mp hdis
+  apply Nat.eq_of_testBit_eq
+  intro k
+  rw [testBit_applyWrites W _ init k hinit, testBit_applyWrites W _ init k hinit]
+  have : lastWriteIn ops k = lastWriteIn ops' k := by
+    apply Option.ext
+    intro b
+    constructor
+    · intro h
+      obtain ⟨op, hm, hw⟩ := lastWriteIn_some_mem ops k b h
+      exact lastWriteIn_of_mem ops' k b hdis' op (hp.mem_iff.mp hm) hw
+    · intro h
+      obtain ⟨op, hm, hw⟩ := lastWriteIn_some_mem ops' k b h
+      exact lastWriteIn_of_mem ops k b hdis op (hp.mem_iff.mpr hm) hw
+  simp only [lastWrite, this]
+
+/-- **a dead write.** A write all of whose positions are covered again by the next write leaves no trace -/
+theorem overwrite (W init : Nat) (a b : WriteOp) (hinit : init < 2 ^ W)
+    (hcov : ∀ p, (written a.v a.off a.rs 0 p).isSome → (written b.v b.off b.rs 0 p).isSome) :
+    applyWrites W init [a, b] = applyWrites W init [b] := by
+  apply Nat.eq_of_testBit_eq
+  intro k
+  rw [testBit_applyWrites W _ init k hinit, testBit_applyWrites W _ init k hinit]
+  simp only [lastWrite, lastWriteIn]
+  cases hb : written b.v b.off b.rs 0 k with
+  | some x => simp
+  | none =>
+    cases ha : written a.v a.off a.rs 0 k with
+    | none => simp
+    | some y => have := hcov k (by simp [ha]); simp [hb] at this
+
+/-- writing the same value to the same field twice is writing it once -/
+theorem write_idempotent (W init : Nat) (a : WriteOp) (hinit : init < 2 ^ W) :
+    applyWrites W init [a, a] = applyWrites W init [a] := overwrite W init a a hinit (fun _ h => h)
+
+
+/-- **order-independence of the generated setters.** Two legal histories of `with_` / `set_` calls that are permutations of
+    each other, the calls pairwise touching no common position (different non-overlapping fields, or different elements of
+    an array whose elements do not overlap), leave the same register – under both profiles, for any number of calls -/
+theorem history_order_independent (Γ : CustomEnv) (chk : Bool) (B : Base) (hB : B.WF) (steps steps' : List Step)
+    (init t t' : Nat) (hinit : init < 2 ^ B.internal) (hok : ∀ st ∈ steps, st.Ok Γ B) (hp : steps.Perm steps')
+    (hdis : (steps.map Step.toOp).Pairwise Apart)
+    (hrun : Runs Γ chk B init steps t) (hrun' : Runs Γ chk B init steps' t') : t = t' := by
+  have hok' : ∀ st ∈ steps', st.Ok Γ B := fun st h => hok st (hp.mem_iff.mpr h)
+  rw [runs_unique Γ chk B hB steps init t hinit hok hrun, runs_unique Γ chk B hB steps' init t' hinit hok' hrun']
+  exact disjoint_perm B.internal init _ _ hinit (hp.map _) hdis
+
+/-- single-range writes whose intervals are disjoint are `Apart` (what discharges the hypothesis for contiguous fields) -/
+theorem apart_single (r q : Rng) (v w : Nat) (h : r.disj q = true) : Apart ⟨[r], 0, v⟩ ⟨[q], 0, w⟩ := by
+  intro p hp
+  simp only [written, Rng.covers, Rng.disj, Nat.add_zero, Bool.or_eq_true, decide_eq_true_eq] at hp h ⊢
+  by_cases hc : (decide (r.lo ≤ p) && decide (p < r.lo + r.len)) = true
+  · by_cases hc' : (decide (q.lo ≤ p) && decide (p < q.lo + q.len)) = true
+    · simp only [Bool.and_eq_true, decide_eq_true_eq] at hc hc'
+      omega
+    · simp [hc']
+  · simp [hc] at hp
+
+/-! non-vacuity: three writes to three disjoint contiguous fields in two different orders -/
+def wA : WriteOp := ⟨[⟨0, 4⟩], 0, 5⟩
+def wB : WriteOp := ⟨[⟨8, 4⟩], 0, 3⟩
+def wC : WriteOp := ⟨[⟨4, 2⟩], 0, 1⟩
+example : applyWrites 16 0xFFFF [wA, wB, wC] = applyWrites 16 0xFFFF [wC, wA, wB] :=
+  disjoint_perm 16 0xFFFF [wA, wB, wC] [wC, wA, wB] (by decide)
+    (List.perm_append_comm (l₁ := [wA, wB]) (l₂ := [wC]))
+    (by
+      simp only [List.pairwise_cons, List.mem_cons, List.not_mem_nil, or_false, forall_eq_or_imp, forall_eq,
+        false_imp_iff, implies_true, List.Pairwise.nil, and_true]
+      exact ⟨⟨apart_single _ _ _ _ (by decide), apart_single _ _ _ _ (by decide)⟩, apart_single _ _ _ _ (by decide)⟩)
+/-- and the hypothesis is needed: overlapping writes do not commute -/
+example : applyWrites 8 0 [⟨[⟨0, 4⟩], 0, 5⟩, ⟨[⟨2, 4⟩], 0, 3⟩] ≠ applyWrites 8 0 [⟨[⟨2, 4⟩], 0, 3⟩, ⟨[⟨0, 4⟩], 0, 5⟩] := by decide
+
+
 end Bb.C12
